@@ -225,6 +225,84 @@ Proof.
       * exact (Hmemo sg j Hin).
 Qed.
 
+(* ---- derivatives introduce no new character class ---- *)
+Lemma mkCat_classes a : forall b, incl (re_classes (mkCat a b)) (re_classes a ++ re_classes b).
+Proof.
+  induction a as [| | | |s|a1 IH1 a2 IH2|a1 IH1 a2 IH2|a1 IH1 mn mx g]; intros b;
+    destruct b; cbn [mkCat re_classes]; try (intros x Hx; (contradiction || exact Hx || (apply in_or_app; (left; exact Hx) || (right; exact Hx))));
+    try (rewrite ?app_nil_r; apply incl_refl).
+  all: try (intros x Hx; rewrite <- app_assoc; apply in_app_or in Hx as [Hx|Hx];
+            [apply in_or_app; left; exact Hx|apply in_or_app; right; apply (IH2 _ x Hx)]).
+Qed.
+
+Lemma alts_classes r : incl (flat_map re_classes (alts r)) (re_classes r).
+Proof.
+  induction r as [| | | |s|a IHa b IHb|a IHa b IHb|a IHa mn mx g]; cbn [alts flat_map re_classes]; rewrite ?app_nil_r;
+    try apply incl_refl; try (intros x []).
+  rewrite flat_map_app. intros x Hx. apply in_app_or in Hx as [Hx|Hx]; apply in_or_app; [left; apply IHa|right; apply IHb]; exact Hx.
+Qed.
+
+Lemma ins_classes x l : incl (flat_map re_classes (ins x l)) (re_classes x ++ flat_map re_classes l).
+Proof.
+  induction l as [|y l IH]; cbn [ins flat_map]; [apply incl_refl|].
+  destruct (re_cmp2 x y); cbn [flat_map].
+  - intros z Hz. apply in_or_app. right. exact Hz.
+  - apply incl_refl.
+  - intros z Hz. apply in_app_or in Hz as [Hz|Hz].
+    + apply in_or_app. right. apply in_or_app. left. exact Hz.
+    + apply IH in Hz. apply in_app_or in Hz as [Hz|Hz]; apply in_or_app; [left; exact Hz|right; apply in_or_app; right; exact Hz].
+Qed.
+
+Lemma build_classes l : incl (re_classes (build l)) (flat_map re_classes l).
+Proof.
+  induction l as [|x l IH]; cbn [build flat_map]; [intros z []|].
+  destruct l as [|y l']; [cbn [flat_map]; rewrite app_nil_r; apply incl_refl|].
+  cbn [re_classes]. intros z Hz. apply in_app_or in Hz as [Hz|Hz]; apply in_or_app; [left; exact Hz|right; apply IH; exact Hz].
+Qed.
+
+Lemma fold_ins_classes l : incl (flat_map re_classes (fold_right ins [] l)) (flat_map re_classes l).
+Proof.
+  induction l as [|x l IH]; cbn [fold_right flat_map]; [apply incl_refl|].
+  intros z Hz. apply ins_classes in Hz. apply in_app_or in Hz as [Hz|Hz]; apply in_or_app; [left; exact Hz|right; apply IH; exact Hz].
+Qed.
+
+Lemma mkAlt_classes a b : incl (re_classes (mkAlt a b)) (re_classes a ++ re_classes b).
+Proof.
+  unfold mkAlt. intros z Hz. apply build_classes in Hz. apply fold_ins_classes in Hz.
+  rewrite flat_map_app in Hz. apply in_app_or in Hz as [Hz|Hz]; apply in_or_app; [left|right]; apply alts_classes; exact Hz.
+Qed.
+
+Lemma mkRep_classes a mn mx : incl (re_classes (mkRep a mn mx)) (re_classes a).
+Proof. unfold mkRep. destruct mx as [[|k]|]; cbn [re_classes]; try apply incl_refl. intros z []. Qed.
+
+Lemma d_classes pnl c r : incl (re_classes (d pnl c r)) (re_classes r).
+Proof.
+  induction r as [| | | |s|a IHa b IHb|a IHa b IHb|a IHa mn mx g]; cbn [d re_classes]; try (intros z []).
+  - destruct (cmem c s); intros z [].
+  - assert (H1 : incl (re_classes (mkCat (d pnl c a) b)) (re_classes a ++ re_classes b)).
+    { intros z Hz. apply mkCat_classes in Hz. apply in_app_or in Hz as [Hz|Hz]; apply in_or_app; [left; apply IHa; exact Hz|right; exact Hz]. }
+    destruct (nul pnl (kind c) a); [|exact H1].
+    intros z Hz. apply mkAlt_classes in Hz. apply in_app_or in Hz as [Hz|Hz]; [apply H1; exact Hz|apply in_or_app; right; apply IHb; exact Hz].
+  - intros z Hz. apply mkAlt_classes in Hz. apply in_app_or in Hz as [Hz|Hz]; apply in_or_app; [left; apply IHa|right; apply IHb]; exact Hz.
+  - destruct mx as [[|k]|]; try (intros z []);
+      intros z Hz; apply mkCat_classes in Hz; apply in_app_or in Hz as [Hz|Hz];
+      try (apply IHa; exact Hz); apply mkRep_classes in Hz; exact Hz.
+Qed.
+
+Lemma td_classes pnl c t : incl (top_classes (td pnl c t)) (top_classes t).
+Proof.
+  induction t as [r|a IHa b IHb|a IHa b IHb|a IHa]; rewrite ?td_and; cbn [td top_classes].
+  - apply d_classes.
+  - unfold mkTAnd. destruct (is_dead (td pnl c a)); [intros z []|]. destruct (is_dead (td pnl c b)); [intros z []|].
+    cbn [top_classes]. intros z Hz. apply in_app_or in Hz as [Hz|Hz]; apply in_or_app; [left; apply IHa|right; apply IHb]; exact Hz.
+  - unfold mkTOr. destruct (is_dead (td pnl c a)).
+    + intros z Hz. apply in_or_app. right. apply IHb. exact Hz.
+    + destruct (is_dead (td pnl c b)).
+      * intros z Hz. apply in_or_app. left. apply IHa. exact Hz.
+      * cbn [top_classes]. intros z Hz. apply in_app_or in Hz as [Hz|Hz]; apply in_or_app; [left; apply IHa|right; apply IHb]; exact Hz.
+  - exact IHa.
+Qed.
+
 Section Sound.
   Variables (CL : list cset) (atoms : list atom) (W : list state) (tr : list (list positive)).
   Hypothesis Hcert : closed_cert CL atoms W tr = true.
@@ -245,13 +323,14 @@ Section Sound.
   Qed.
 
   (* closure under every byte *)
-  Lemma step_in_W q c : In q W -> is_byte c = true -> In (step q c) W /\ accepting q = false.
+  Lemma step_in_W q c : In q W -> incl (top_classes (snd q)) CL -> is_byte c = true ->
+    In (step q c) W /\ accepting q = false /\ incl (top_classes (snd (step q c))) CL.
   Proof.
-    intros Hq Hc. destruct cert_parts as (Hat & _ & Hrows).
+    intros Hq Hcls Hc. destruct cert_parts as (Hat & _ & Hrows).
     destruct (in_W_row q Hq) as [succ Hrow]. specialize (Hrows q succ Hrow).
-    unfold row_ok in Hrows. apply andb_prop in Hrows as [H Hsucc].
-    apply andb_prop in H as [Hacc Hcl].
-    split; [|apply Bool.negb_true_iff; exact Hacc].
+    unfold row_ok in Hrows. apply andb_prop in Hrows as [Hacc Hsucc].
+    split; [|split; [apply Bool.negb_true_iff; exact Hacc|]];
+      [|unfold step; cbn [snd]; intros z Hz; apply Hcls; eapply td_classes; exact Hz].
     (* find the atom of c *)
     unfold atoms_ok in Hat. apply andb_prop in Hat as [Hind Hcov].
     rewrite forallb_forall in Hcov. specialize (Hcov c (all256_spec c Hc)).
@@ -264,17 +343,18 @@ Section Sound.
     (* step q c = step q (rep a) *)
     assert (Es : step q c = step q (fst a)).
     { unfold step. rewrite <- Hk. f_equal. symmetry. apply td_indist; [exact Hk|].
-      intros s Hs. apply Hsame. eapply classes_in_spec; [exact Hcl|exact Hs]. }
+      intros s Hs. apply Hsame. apply Hcls. exact Hs. }
     rewrite Es. exact En.
   Qed.
 
-  Theorem closed_sound : forall s q, In q W -> all_bytes s = true -> trun (fst q) (snd q) s = false.
+  Theorem closed_sound : forall s q, In q W -> incl (top_classes (snd q)) CL ->
+    all_bytes s = true -> trun (fst q) (snd q) s = false.
   Proof.
-    induction s as [|c s IH]; intros q Hq Hs.
-    - cbn. destruct (step_in_W q 0 Hq eq_refl) as [_ Hacc]. exact Hacc.
+    induction s as [|c s IH]; intros q Hq Hcls Hs.
+    - cbn. destruct (step_in_W q 0 Hq Hcls eq_refl) as (_ & Hacc & _). exact Hacc.
     - cbn in Hs. apply andb_prop in Hs as [Hc Hs]. cbn [trun].
-      destruct (step_in_W q c Hq Hc) as [Hin _].
-      exact (IH (step q c) Hin Hs).
+      destruct (step_in_W q c Hq Hcls Hc) as (Hin & _ & Hcls').
+      exact (IH (step q c) Hin Hcls' Hs).
   Qed.
 End Sound.
 
@@ -283,8 +363,10 @@ Theorem decide_empty_sound CL atoms fuel t0 :
   forall s, all_bytes s = true -> accepts t0 s = false.
 Proof.
   unfold decide_empty. destruct (explore fuel atoms t0) as [W tr| |]; try discriminate.
-  intros H s Hs. apply andb_prop in H as [Hc H0].
+  intros H s Hs. apply andb_prop in H as [H H0]. apply andb_prop in H as [Hc Hcl].
   destruct W as [|q0 W']; [discriminate|]. apply state_eqb_eq in H0.
-  pose proof (closed_sound CL atoms (q0 :: W') tr Hc s q0 (or_introl eq_refl) Hs) as Hr.
+  assert (Hcls : incl (top_classes (snd q0)) CL).
+  { rewrite H0. cbn [snd]. intros z Hz. eapply classes_in_spec; [exact Hcl|exact Hz]. }
+  pose proof (closed_sound CL atoms (q0 :: W') tr Hc s q0 (or_introl eq_refl) Hcls Hs) as Hr.
   rewrite H0 in Hr. exact Hr.
 Qed.
